@@ -300,6 +300,9 @@ func c17MqExec(in c17MqIn) (obs c17MqObs) {
 					break
 				}
 				s.client.conn.SetReadDeadline(time.Time{})
+				b.Lock()
+				oldAb := b.clients[fmt.Sprintf("c%d", s.cid)]
+				b.Unlock()
 				close(s.park.rel)
 				s.state = 3
 				// wait until handleConn has returned (its deferred conn.Close())
@@ -310,6 +313,16 @@ func c17MqExec(in c17MqIn) (obs c17MqObs) {
 						break
 					}
 					time.Sleep(200 * time.Microsecond)
+				}
+				// a registered id is taken over whatever the count: its client is closed in a goroutine
+				if oldAb != nil && oldAb != s.client {
+					for !oldAb.disconnected() {
+						if time.Now().After(deadline) {
+							obs.Desync = true
+							break
+						}
+						time.Sleep(100 * time.Microsecond)
+					}
 				}
 				break
 			}
